@@ -673,14 +673,20 @@ where
     }
 
     pub(crate) async fn next_inner(&mut self) -> Result<Option<ResultEntry>> {
+        // The receiver is gone once the final result has been read; an adapter which asks
+        // again (e.g., after its own call was abandoned and restarted) gets the same answer.
+        let rx = match self.rx.as_mut() {
+            Some(rx) => rx,
+            None => return Ok(None),
+        };
         let item = if let Some(timeout) = self.timeout {
-            let res = time::timeout(timeout, self.rx.as_mut().unwrap().recv()).await;
+            let res = time::timeout(timeout, rx.recv()).await;
             if res.is_err() {
                 self.ldap.id_scrub_tx.send(self.msgid)?;
             }
             res?
         } else {
-            self.rx.as_mut().unwrap().recv().await
+            rx.recv().await
         };
         let (item, controls) = match item {
             Some((item, controls)) => (item, controls),
@@ -725,6 +731,15 @@ where
         })
     }
 
+    /// A call into the adapter chain which was abandoned half-way (its future dropped while
+    /// pending) leaves the chain position behind. The adapters above the current position
+    /// are locked while, and only while, such a call is in progress, which tells the two apart.
+    fn resync_chain(&mut self) {
+        if self.ax > 0 && self.adapters[self.ax - 1].try_lock().is_ok() {
+            self.ax = 0;
+        }
+    }
+
     /// Initialize a streaming Search.
     ///
     /// This method exists as an initialization point for search adapters, and is
@@ -735,6 +750,7 @@ where
         if self.state != StreamState::Fresh {
             return Ok(());
         }
+        self.resync_chain();
         if self.ax == self.adapters.len() {
             let res = self.start_inner(base, scope, filter, attrs).await;
             if res.is_err() {
@@ -762,6 +778,7 @@ where
         if self.state != StreamState::Active {
             return Ok(None);
         }
+        self.resync_chain();
         if self.ax == self.adapters.len() {
             let res = self.next_inner().await;
             match res {
@@ -805,6 +822,7 @@ where
                 ctrls: vec![],
             };
         }
+        self.resync_chain();
         if self.ax == self.adapters.len() {
             return self.finish_inner().await;
         }
